@@ -1,11 +1,15 @@
 //! C09 — Variables types admit only coercible inputs and every explicit one.
 //!
-//! Per case (schema SDL × configuration × operation document): the REAL operation declaration text and the REAL
+//! The schema reaches the real code by one of the CLI's two routes: SDL text (`nvh::real::with_schema`) or an
+//! INTROSPECTION RESULT (`schema: x.json`; `nvh::real::with_schema_json` = reader + built-in scalars +
+//! `type_system_to_ast`, every position default), rendered from the same abstract model by the C15 harness' renderer.
+//! Per case (schema SDL | JSON × configuration × operation document): the REAL operation declaration text and the REAL
 //! schema declaration text are parsed (`nvh::tsparse`); the operation file is linked with the schema file through
 //! its `import type * as Schema from …`.
 //! K: the parsed `<Op>Variables` alias = the Lean model `VarTypes.varsTs` (tree for tree); and
 //!    `Schema.__OperationInput.<Scalar>` of the real schema file = the operation-input text of the model's scalar
 //!    table `DeclCfg.scalarTypes` (configuration entry / built-in first, `@nitrogql_ts_type` directive second).
+//!    `namespace __OperationInput` of the real schema file = that namespace of the model `SchemaDecls.schemaFile`.
 //! O: on the finite abstract value domain (records of variables: exact, one variable dropped / extra / wrong, the
 //!    same inside input-object values, bare items for lists, omitted nullable keys) membership in the REAL
 //!    `<Op>Variables` type read with the real `__OperationInput` namespace (`ts.table`) is compared with the
@@ -13,6 +17,10 @@
 //! Signatures = (direction, clause).
 #[path = "c10/common.rs"]
 mod common;
+/// the C15 harness' own rendering of the introspection result of a schema model (written against spec §4)
+#[allow(dead_code)]
+#[path = "c15/json.rs"]
+mod ijson;
 use common::*;
 use nvh::gen::*;
 use nvh::gm::*;
@@ -32,6 +40,9 @@ struct Case {
     /// (Coercible, Explicit_c, value domain) is computed from it, not from the real pipeline's resolved document
     model: Option<TsDoc>,
     model_sdl: Option<String>,
+    /// `Some(text)`: the schema is given to the real code as an INTROSPECTION RESULT (`schema: x.json`), loaded the
+    /// way the CLI does (`nvh::real::with_schema_json`); `sdl` is then only the readable form of the same schema
+    json: Option<String>,
 }
 
 fn with_builtin_scalars(doc: &TsDoc) -> TsDoc {
@@ -46,7 +57,7 @@ fn with_builtin_scalars(doc: &TsDoc) -> TsDoc {
 
 impl Case {
     fn to_json(&self) -> Value {
-        json!({"sdl": self.sdl, "cfg": self.cfg.to_json(), "doc": self.doc, "origin": self.origin, "model_sdl": self.model_sdl})
+        json!({"sdl": self.sdl, "cfg": self.cfg.to_json(), "doc": self.doc, "origin": self.origin, "model_sdl": self.model_sdl, "schema_json": self.json})
     }
     fn from_json(v: &Value) -> Case {
         let model_sdl = v["model_sdl"].as_str().map(|s| s.to_string());
@@ -58,6 +69,7 @@ impl Case {
             origin: v["origin"].as_str().unwrap_or("replay").to_string(),
             model,
             model_sdl,
+            json: v["schema_json"].as_str().map(|s| s.to_string()),
         }
     }
 }
@@ -75,6 +87,7 @@ fn corpus() -> Vec<Case> {
         origin: "corpus:option-off-nullable-variable".into(),
         model: None,
         model_sdl: None,
+        json: None,
     });
     for (i, optional) in [None, Some(true), Some(false)].into_iter().enumerate() {
         for (j, sc) in [
@@ -85,7 +98,7 @@ fn corpus() -> Vec<Case> {
         .into_iter()
         .enumerate()
         {
-            out.push(Case { sdl: CORPUS_SDL.into(), cfg: CfgCase { scalars: vec![("Date".into(), sc)], optional, runtime: false }, doc: doc.into(), origin: format!("corpus:matrix:{i}:{j}"), model: None, model_sdl: None });
+            out.push(Case { sdl: CORPUS_SDL.into(), cfg: CfgCase { scalars: vec![("Date".into(), sc)], optional, runtime: false }, doc: doc.into(), origin: format!("corpus:matrix:{i}:{j}"), model: None, model_sdl: None, json: None });
         }
     }
     out.push(Case {
@@ -95,6 +108,7 @@ fn corpus() -> Vec<Case> {
         origin: "corpus:directive-scalar".into(),
         model: None,
         model_sdl: None,
+        json: None,
     });
     // the two sources of a scalar's TypeScript type (schema directive × configuration entry): where the directive is
     // written × what the configuration says about the same scalar
@@ -121,6 +135,7 @@ fn corpus() -> Vec<Case> {
                 origin: format!("corpus:scalar-sources:directive-on-{pl}:config-{en}"),
                 model: None,
                 model_sdl: None,
+                json: None,
             });
         }
     }
@@ -132,8 +147,70 @@ fn corpus() -> Vec<Case> {
         origin: "corpus:clash-input-name".into(),
         model: None,
         model_sdl: None,
+        json: None,
     });
+    // several input objects / enums / object types that share member names with different types, nullability and
+    // list-ness (the same name must keep its own meaning in each type), in both definition orders
+    let shared = [
+        "enum Status { DRAFT LIVE NONE }",
+        "enum Audience { NONE EVERYONE STAFF }",
+        "input NewItem { label: String! note: String! tags: [String!]! status: Status! parent: ID, rank: Int! = 1 }",
+        "input ItemPatch { label: String note: [String] tags: [String] status: Status parent: [ID!] audience: Audience rank: [Int!] }",
+        "input ItemQuery { label: [String!] status: [Status!]! tags: String parent: ItemQuery audience: Audience! note: Boolean! }",
+        "type Item { id: ID! label: String! tags: [String!]! status: Status! }",
+        "type Sketch { id: ID label: [String] tags: String status: Audience }",
+        "type Query { items(q: ItemQuery): [Item!]! sketch: Sketch }",
+        "type Mutation { create(input: NewItem!): Item update(id: ID!, input: ItemPatch!): Item }",
+    ];
+    let doc = "mutation Make($a: NewItem!, $s: Status) { create(input: $a) { id } }\nmutation Change($b: ItemPatch!, $bs: [ItemPatch!], $v: Audience!) { update(id: \"1\", input: $b) { id } }\nquery Find($c: ItemQuery, $cs: [[ItemQuery]!]!) { items(q: $c) { id } }\n";
+    for (k, order) in ["forward", "reverse"].iter().enumerate() {
+        let mut lines: Vec<&str> = shared.to_vec();
+        if k == 1 {
+            lines.reverse();
+        }
+        out.push(Case {
+            sdl: lines.join("\n") + "\n",
+            cfg: CfgCase { scalars: vec![], optional: [Some(true), Some(false)][k], runtime: false },
+            doc: doc.into(),
+            origin: format!("corpus:shared-member-names:{order}"),
+            model: None,
+            model_sdl: None,
+            json: None,
+        });
+    }
+    // every corpus schema that an introspection result can express is ALSO given as introspection JSON
+    let twins: Vec<Case> = out.iter().filter_map(json_twin).collect();
+    out.extend(twins);
     out
+}
+
+const BUILTIN_DIRECTIVES: [&str; 5] = ["skip", "include", "deprecated", "specifiedBy", "nitrogql_ts_type"];
+
+/// the abstract model of an SDL text: the real front end's resolved document without the built-in items
+fn model_of_sdl(sdl: &str) -> Option<SchemaModel> {
+    let doc = with_schema(&[sdl.to_string()], |resolved, _| from_real_tsdoc(resolved)).ok()?;
+    let items: Vec<TsItem> = doc
+        .items
+        .into_iter()
+        .filter(|i| match i {
+            TsItem::TypeDef(t) => !(BUILTIN_SCALARS.contains(&t.name.as_str()) || t.name.starts_with("__")),
+            TsItem::DirectiveDef(d) => !BUILTIN_DIRECTIVES.contains(&d.name.as_str()),
+            _ => true,
+        })
+        .collect();
+    Some(SchemaModel { doc: TsDoc { items }, query: "Query".into(), mutation: None, subscription: None })
+}
+
+/// the same case with the schema given as an introspection result. An introspection result carries no applied
+/// directives, so `@nitrogql_ts_type` is unknown on that route: the twin exists only when every custom scalar has a
+/// configuration entry.
+fn json_twin(case: &Case) -> Option<Case> {
+    let m = model_of_sdl(&case.sdl)?;
+    if m.types().any(|t| t.kind == TypeKind::Scalar && !case.cfg.scalars.iter().any(|(n, _)| *n == t.name)) {
+        return None;
+    }
+    let text = serde_json::to_string(&ijson::introspection_json(&m)).ok()?;
+    Some(Case { json: Some(text), origin: format!("{}:introspection-json", case.origin), model_sdl: Some(case.sdl.clone()), model: Some(with_builtin_scalars(&m.doc)), ..case.clone() })
 }
 
 fn wrap_random(rng: &mut Rng, base: &str) -> String {
@@ -223,13 +300,48 @@ fn more_ts_type_directives(rng: &mut Rng, schema: &mut SchemaModel) {
     }
 }
 
+/// Members of DIFFERENT types that share a name but not a meaning: an enum value name common to two enums; (only for
+/// crafted operations, which select no fields) a field name common to two object types with different types. Input
+/// objects already share field names with independently drawn types (`gen_schema` names input fields by index).
+fn share_member_names(rng: &mut Rng, schema: &mut SchemaModel, objects_too: bool) {
+    let value = ["NONE", "OTHER", "UNKNOWN"][rng.below(3)];
+    let mut obj_k = 0;
+    for it in schema.doc.items.iter_mut() {
+        let TsItem::TypeDef(t) = it else {
+            continue;
+        };
+        match t.kind {
+            TypeKind::Enum if rng.chance(2, 3) => {
+                let at = rng.below(t.values.len() + 1);
+                t.values.insert(at, EnumValueDef { desc: None, name: value.to_string(), pos: P::default(), dirs: vec![] });
+            }
+            TypeKind::Object if objects_too && rng.coin() => {
+                let ty = [Ty::non_null(Ty::named("String")), Ty::list(Ty::named("Int")), Ty::named("Boolean"), Ty::non_null(Ty::list(Ty::non_null(Ty::named("ID"))))][obj_k % 4].clone();
+                obj_k += 1 + rng.below(2);
+                t.fields.push(FieldDef { desc: None, name: "label".into(), pos: P::default(), args: vec![], ty, dirs: vec![] });
+            }
+            _ => {}
+        }
+    }
+}
+
 fn generated(rng: &mut Rng, i: usize) -> Case {
-    let cfg = GenCfg { hostile_text: false, coercions: false, ts_type_directive: true, ..GenCfg::default() };
+    // two cases in five give the schema as an introspection result (`schema: x.json`). Documented differences of that
+    // route respected here: applied directives do not exist in an introspection result, so `@nitrogql_ts_type` is not
+    // written and every custom scalar keeps its configuration entry
+    let json_route = i % 5 == 1 || i % 5 == 3;
+    let crafted = i % 2 == 1;
+    let cfg = GenCfg { hostile_text: false, coercions: false, ts_type_directive: !json_route, ..GenCfg::default() };
     let mut schema = gen_schema(rng, &cfg);
-    more_ts_type_directives(rng, &mut schema);
+    share_member_names(rng, &mut schema, crafted);
+    if !json_route {
+        more_ts_type_directives(rng, &mut schema);
+    }
     let mut pc = gen_project_cfg(rng, &schema, i % 4 == 0);
-    mix_scalar_sources(rng, &schema, &mut pc);
-    let (doc, origin) = if i % 2 == 0 {
+    if !json_route {
+        mix_scalar_sources(rng, &schema, &mut pc);
+    }
+    let (doc, origin) = if !crafted {
         let (d, _) = gen_doc(rng, &schema, &cfg);
         (doc_text(&d), format!("generated:{i}:gen_doc"))
     } else {
@@ -239,9 +351,17 @@ fn generated(rng: &mut Rng, i: usize) -> Case {
         let n = 1 + rng.below(5);
         let mut vars = vec![];
         let with_directive: Vec<String> = directive_scalars(&schema.doc).into_keys().collect();
+        let input_objects: Vec<String> = schema.names_of_kind(TypeKind::Input);
         for k in 0..n {
-            // the first variable is often of a scalar whose type also comes from the schema (directive)
-            let base = if k == 0 && !with_directive.is_empty() && rng.coin() { with_directive[rng.below(with_directive.len())].clone() } else { inputs[rng.below(inputs.len())].clone() };
+            // the first variable is often of a scalar whose type also comes from the schema (directive), the second
+            // often of an input-object type
+            let base = if k == 0 && !with_directive.is_empty() && rng.coin() {
+                with_directive[rng.below(with_directive.len())].clone()
+            } else if k <= 1 && !input_objects.is_empty() && rng.coin() {
+                input_objects[rng.below(input_objects.len())].clone()
+            } else {
+                inputs[rng.below(inputs.len())].clone()
+            };
             let ty = wrap_random(rng, &base);
             let default = if !ty.ends_with('!') && rng.chance(1, 5) { " = null" } else { "" };
             vars.push(format!("$v{k}: {ty}{default}"));
@@ -249,6 +369,11 @@ fn generated(rng: &mut Rng, i: usize) -> Case {
         (format!("query Crafted{i}({}) {{ __typename }}\n", vars.join(", ")), format!("generated:{i}:crafted"))
     };
     let mut origin = origin;
+    if json_route {
+        origin.push_str(":introspection-json");
+        let text = serde_json::to_string(&ijson::introspection_json(&schema)).expect("json text");
+        return Case { sdl: schema.sdl(), cfg: CfgCase::from_project(&pc), doc, origin, model: Some(with_builtin_scalars(&schema.doc)), model_sdl: Some(schema.sdl()), json: Some(text) };
+    }
     let written = if i % 3 == 1 {
         origin.push_str(":extensions");
         split_into_extensions(rng, &schema)
@@ -260,7 +385,7 @@ fn generated(rng: &mut Rng, i: usize) -> Case {
         origin.push_str(":ts_type-on-extend-scalar");
     }
     let sdl = nvh::render::tsdoc_text(&written);
-    Case { sdl, cfg: CfgCase::from_project(&pc), doc, origin, model: Some(with_builtin_scalars(&schema.doc)), model_sdl: Some(schema.sdl()) }
+    Case { sdl, cfg: CfgCase::from_project(&pc), doc, origin, model: Some(with_builtin_scalars(&schema.doc)), model_sdl: Some(schema.sdl()), json: None }
 }
 
 fn capitalize(s: &str) -> String {
@@ -302,10 +427,20 @@ fn run_case(rep: &mut Report, drv: &mut Driver, case: &Case) {
         }
     };
     let doc_text_ = case.doc.clone();
-    let r = with_schema(&[case.sdl.clone()], |resolved, s| {
+    let stages = |resolved: &nitrogql_ast::TypeSystemDocument, s: &graphql_type_system::Schema<std::borrow::Cow<str>, nitrogql_ast::base::Pos>| {
         let op = with_operation(s, &doc_text_, 1, |d, diags| (from_real_doc(d), diags, print_operation_types(s, d, &config)));
         (from_real_tsdoc(resolved), print_schema_types(resolved, &config), op)
-    });
+    };
+    let r = match &case.json {
+        Some(text) => {
+            rep.count("route:introspection-json");
+            with_schema_json(text, stages)
+        }
+        None => {
+            rep.count("route:sdl");
+            with_schema(&[case.sdl.clone()], stages)
+        }
+    };
     let (tsdoc, schema_text, op) = match r {
         Ok(x) => x,
         Err(e) => {
@@ -401,6 +536,27 @@ fn run_case(rep: &mut Report, drv: &mut Driver, case: &Case) {
             }
         }
     }
+    // ---- K: `namespace __OperationInput` of the REAL schema declaration file = the same namespace of the model
+    // `SchemaDecls.schemaFile` on the document the printer was given (tree for tree). The model knows no source
+    // positions: it must agree whether the document was parsed from SDL or synthesised from an introspection result.
+    {
+        let model = drv.one(&Sexp::call("decls.schema", vec![cfg_sexp.clone(), strip_pos(&tsdoc.to_sexp())]));
+        rep.k_cases += 1;
+        let ns = |file: &Sexp| file.args().iter().find(|s| s.head() == Some("namespace") && s.args().get(1).and_then(|n| n.as_str()) == Some("__OperationInput")).and_then(|s| s.args().get(2).cloned());
+        if model.head() != Some("ok") {
+            rep.fail("K", "schema-file:error-outcome", &format!("code printed a schema declaration file; model: {}", model.to_line().chars().take(200).collect::<String>()), case.to_json());
+        } else {
+            match (ns(&model.args()[0]), ns(&normalise_docs(&schema_tree))) {
+                (Some(m), Some(r)) => {
+                    if m != r {
+                        let d = first_diff(&m, &r, &mut vec![]).unwrap_or_default();
+                        rep.fail("K", &format!("schema-file:operation-input-namespace:{}", diff_kind(&m, &r)), &format!("namespace __OperationInput differs (model vs code) at {d}"), case.to_json());
+                    }
+                }
+                (m, r) => rep.fail("K", "schema-file:operation-input-namespace:missing", &format!("namespace __OperationInput present: model {}, code {}", m.is_some(), r.is_some()), case.to_json()),
+            }
+        }
+    }
     // reference side: the generator's abstract model when the case has one
     let ref_doc: TsDoc = case.model.clone().unwrap_or_else(|| tsdoc.clone());
     let doc_sexp = strip_pos(&ref_doc.to_sexp());
@@ -412,6 +568,25 @@ fn run_case(rep: &mut Report, drv: &mut Driver, case: &Case) {
         rep.count("feature:nitrogql_ts_type-on-extend-scalar");
     }
     let tsdoc = ref_doc;
+    // input objects that have a field whose NAME another input object also has with a different type
+    let mut name_clash_inputs: BTreeSet<String> = BTreeSet::new();
+    {
+        let inputs: Vec<&TypeDef> = tsdoc.items.iter().filter_map(|i| if let TsItem::TypeDef(t) = i { Some(t) } else { None }).filter(|t| t.kind == TypeKind::Input).collect();
+        for a in &inputs {
+            for b in &inputs {
+                if a.name != b.name && a.inputs.iter().any(|f| b.inputs.iter().any(|g| g.name == f.name && g.ty.text() != f.ty.text())) {
+                    name_clash_inputs.insert(a.name.clone());
+                }
+            }
+        }
+        if !name_clash_inputs.is_empty() {
+            rep.count("feature:input-objects-share-a-field-name-with-different-types");
+        }
+        let enums: Vec<&TypeDef> = tsdoc.items.iter().filter_map(|i| if let TsItem::TypeDef(t) = i { Some(t) } else { None }).filter(|t| t.kind == TypeKind::Enum && !t.name.starts_with("__")).collect();
+        if enums.iter().any(|a| enums.iter().any(|b| a.name != b.name && a.values.iter().any(|v| b.values.iter().any(|w| w.name == v.name)))) {
+            rep.count("feature:enums-share-a-value-name");
+        }
+    }
     // module specifier of the schema import
     let schema_module = op_tree
         .args()
@@ -521,6 +696,9 @@ fn run_case(rep: &mut Report, drv: &mut Driver, case: &Case) {
             rep.count("outside-O-domain:scalar-input-text-admits-null-or-undefined");
             continue;
         }
+        if reach.iter().any(|n| name_clash_inputs.contains(n)) {
+            rep.count(if case.json.is_some() { "feature:variables-reach-input-object-sharing-a-field-name:introspection-json" } else { "feature:variables-reach-input-object-sharing-a-field-name:sdl" });
+        }
         if reach.iter().any(|n| two_sources_differ.contains(n)) {
             rep.count("feature:variables-reach-scalar-with-config-entry-and-different-directive");
         }
@@ -627,7 +805,7 @@ fn run_case(rep: &mut Report, drv: &mut Driver, case: &Case) {
         }
         let nontrivial = o.vars.iter().any(|v| v.ty.text().contains('[')) && o.vars.iter().any(|v| tsdoc.type_def(v.ty.unwrapped()).map_or(false, |t| matches!(t.kind, TypeKind::Input | TypeKind::Enum)));
         if nontrivial {
-            rep.nontrivial(&format!("{}|{}|{}", case.sdl, case.cfg.to_json(), o.vars.iter().map(|v| format!("{}:{}", v.name, v.ty.text())).collect::<Vec<_>>().join(",")));
+            rep.nontrivial(&format!("{}|{}|{}|{}", if case.json.is_some() { "json" } else { "sdl" }, case.sdl, case.cfg.to_json(), o.vars.iter().map(|v| format!("{}:{}", v.name, v.ty.text())).collect::<Vec<_>>().join(",")));
         }
         rep.sample(json!({"origin": case.origin, "alias": alias, "variables": o.vars.iter().map(|v| format!("${}: {}", v.name, v.ty.text())).collect::<Vec<_>>(), "values": values.len(), "admitted": n_ts, "explicit": n_expl, "coercible": n_coer}));
     }
